@@ -100,10 +100,14 @@ fn run_once(sc: &Value, decider: Decider, id: &Value) -> RunOut {
     let cfg = cfg_from(sc);
     let max_top = cfg.max_top;
     let env = Env::new(cfg, decider);
-    let g = build(sc, &env);
-    let mut ntop = 0;
+    let g = Arc::new(build(sc, &env));
+    {
+        let g2 = Arc::clone(&g);
+        let ta: env::TopAction = Arc::new(move |act, comp| perform(&g2, act, comp));
+        *env.top_action.lock().unwrap_or_else(|e| e.into_inner()) = Some(ta);
+    }
     loop {
-        if ntop >= max_top {
+        if env.lock().ntop >= max_top {
             break;
         }
         let acts = enabled(&g);
@@ -113,13 +117,13 @@ fn run_once(sc: &Value, decider: Decider, id: &Value) -> RunOut {
         if c == "stop" {
             break;
         }
-        ntop += 1;
+        env.lock().ntop += 1;
         let (act, comp) = c.split_once(' ').unwrap();
         // C13 bookkeeping: the whole step (and the decision that chose it) belongs to one subscription
         let owner = env.owner_of_name(comp);
         env.set_owner(owner);
-        if let Some(l) = env.lock().script_own.last_mut() {
-            *l = owner;
+        if let Some(l) = env.lock().script_proj.last_mut() {
+            l.0 = owner;
         }
         env.event("top", comp, act, json!(0));
         let r = catch_unwind(AssertUnwindSafe(|| {
@@ -177,7 +181,7 @@ fn run_once(sc: &Value, decider: Decider, id: &Value) -> RunOut {
             }
             projs.push(Value::Array(p));
             let mut sp = vec![];
-            for (e, eo) in gd.script.iter().zip(gd.script_own.iter()) {
+            for (eo, e) in gd.script_proj.iter() {
                 if *eo == o {
                     sp.push((
                         e[0].as_str().unwrap_or("").to_string(),
@@ -210,8 +214,8 @@ fn run_once(sc: &Value, decider: Decider, id: &Value) -> RunOut {
         rec["solo"] = Value::Array(so);
         rec["solo_short"] = Value::Array(sdiv);
     }
-    drop(g);
     env.cleanup();
+    drop(g);
     RunOut { rec, trail }
 }
 
